@@ -695,6 +695,19 @@ def _mat_getitem(interp, self: Mat, args, kwargs):
         if isinstance(a, Num) and full(b):
             i = norm_index(ctx, a, self.rows, "row index")
             return mat_row(self, i)
+    if isinstance(idx, tuple) and idx[0] == "slice":
+        # M[a:b] row slice (unit step).  numpy returns a view; the model returns a read-only copy, which is the same for
+        # callers that only read the result (writes through it are refused by the missing alias, i.e. they would be wrong:
+        # so the result is marked and a later in-place write raises Unsupported)
+        from .lib_py import slice_bounds
+        start, count, st = slice_bounds(interp, idx[1], idx[2], idx[3], self.rows)
+        if isinstance(start, str) or st != 1:
+            raise Unsupported("matrix row slice with a step")
+        src = self.buf.fn
+        s0 = zint(start)
+        out = Mat(count, self.cols, lambda i, j: src(z3.simplify(s0 + zint(i)), j), elem=self.elem)
+        out.readonly_view = True
+        return out
     raise Unsupported("matrix index")
 
 
